@@ -1,5 +1,5 @@
 package ksim
 
 func installOracles(s *Sim, sc *Scenario) {
-	s.Oracles = append(s.Oracles, &coreOracle{sc: sc})
+	s.Oracles = append(s.Oracles, &coreOracle{sc: sc}, newTrafficOracle(sc))
 }
